@@ -97,6 +97,8 @@ pub enum Op {
     Zh { d: u8, lon: f64 },
     /// crashing caller: `nested::center(d, n_hash(d))` -> must panic on the hash check.
     Zc { d: u8 },
+    /// crashing caller: `nested::hash(30, lon, 0.5)` -> depth > 29 must panic (index check).
+    Zd { lon: f64 },
 }
 
 impl Op {
@@ -107,10 +109,12 @@ impl Op {
             | Op::E { d, .. } | Op::P { d, .. } | Op::X { d, .. } | Op::B { d, .. } | Op::R { d, .. }
             | Op::V { d, .. } | Op::Zh { d, .. } | Op::Zc { d } => *d,
             Op::Kc { d, dd, .. } => *d + *dd,
+            // the invalid depth itself is 30; no valid slot is requested
+            Op::Zd { .. } => 0,
         }
     }
     pub fn is_crash(&self) -> bool {
-        matches!(self, Op::Zh { .. } | Op::Zc { .. })
+        matches!(self, Op::Zh { .. } | Op::Zc { .. } | Op::Zd { .. })
     }
     /// Which lazily initialised tables the op is guaranteed to first-touch at `depth()`:
     /// bit 0 = LAYERS, bit 1 = CSTS_C2V.
@@ -126,12 +130,12 @@ impl Op {
             Op::L { .. } => "L", Op::H { .. } => "H", Op::G { .. } => "G", Op::N { .. } => "N",
             Op::K { .. } => "K", Op::Kc { .. } => "Kc", Op::E { .. } => "E", Op::P { .. } => "P",
             Op::X { .. } => "X", Op::B { .. } => "B", Op::R { .. } => "R", Op::V { .. } => "V",
-            Op::Zh { .. } => "Zh", Op::Zc { .. } => "Zc",
+            Op::Zh { .. } => "Zh", Op::Zc { .. } => "Zc", Op::Zd { .. } => "Zd",
         }
     }
 }
 
-pub const OP_KINDS: [&str; 14] = ["L", "H", "G", "N", "K", "Kc", "E", "P", "X", "B", "R", "V", "Zh", "Zc"];
+pub const OP_KINDS: [&str; 15] = ["L", "H", "G", "N", "K", "Kc", "E", "P", "X", "B", "R", "V", "Zh", "Zc", "Zd"];
 
 #[derive(Clone, Copy, Debug, PartialEq, Eq)]
 pub enum Start {
@@ -224,6 +228,7 @@ pub fn encode_op(op: &Op) -> String {
         },
         Op::Zh { d, lon } => format!("Zh,{},{}", d, f(*lon)),
         Op::Zc { d } => format!("Zc,{}", d),
+        Op::Zd { lon } => format!("Zd,{}", f(*lon)),
     }
 }
 
@@ -254,6 +259,7 @@ pub fn decode_op(s: &str) -> Result<Op, String> {
         }
         "Zh" => { need(3)?; Op::Zh { d: pu(p[1])?, lon: pf(p[2])? } }
         "Zc" => { need(2)?; Op::Zc { d: pu(p[1])? } }
+        "Zd" => { need(2)?; Op::Zd { lon: pf(p[1])? } }
         k => return Err(format!("unknown op kind '{}'", k)),
     };
     if op.depth() > 29 { return Err(format!("op '{}': depth > 29", s)); }
@@ -352,6 +358,7 @@ pub fn describe_op(op: &Op) -> String {
         },
         Op::Zh { d, lon } => format!("CRASH hash({},{:.6},lat=2.0)", d, lon),
         Op::Zc { d } => format!("CRASH center({},n_hash)", d),
+        Op::Zd { lon } => format!("CRASH hash(depth=30,{:.6},0.5)", lon),
     }
 }
 
@@ -370,6 +377,10 @@ pub enum Profile {
     /// Coverage queries spanning >= 3 depths (cone radius of 3..12 cells) racing with each other
     /// and with first users of the intermediate depths; half of the other threads arrive late.
     Cover,
+    /// Crashing callers in the middle of contention: every scenario has at least one call that
+    /// panics by design (latitude 2.0, hash == n_hash, depth 30) placed next to 2..=4 threads that
+    /// first-use the same depth(s) with light ops; some threads arrive late.
+    Crash,
 }
 
 pub fn n_hash(d: u8) -> u64 {
@@ -456,6 +467,7 @@ fn gen_op(rng: &mut Rng, k: usize, d: u8, light: bool) -> Op {
         "V" => Op::V { d, lon, lat, r: if rng.chance(1, 2) { Some((cs * rng.uniform(0.2, 4.0)).min(1.0)) } else { None } },
         "Zh" => Op::Zh { d, lon },
         "Zc" => Op::Zc { d },
+        "Zd" => Op::Zd { lon },
         _ => unreachable!(),
     }
 }
@@ -509,16 +521,56 @@ fn generate_cover(seed: u64) -> Scenario {
     Scenario { threads, faults }
 }
 
+/// Crash-centred scenarios (see [`Profile::Crash`]).
+fn generate_crash(seed: u64) -> Scenario {
+    let mut rng = Rng::new(seed);
+    let n_threads = rng.range(2, 4) as usize;
+    let d0 = rng.below(N_DEPTHS as u64) as u8;
+    let d1 = if rng.chance(1, 3) { rng.below(N_DEPTHS as u64) as u8 } else { d0 };
+    // light first-use ops only: L H G N B R V
+    let light_kinds = [0usize, 1, 2, 3, 9, 10, 11];
+    let mut threads: Vec<ThreadSpec> = Vec::with_capacity(n_threads);
+    for ti in 0..n_threads {
+        let n_ops = rng.range(1, 2) as usize;
+        let mut ops = Vec::new();
+        for _ in 0..n_ops {
+            let d = if rng.chance(3, 4) { d0 } else { d1 };
+            let k = light_kinds[rng.below(light_kinds.len() as u64) as usize];
+            ops.push(gen_op(&mut rng, k, d, true));
+        }
+        let late = ti > 0 && rng.chance(1, 4);
+        threads.push(ThreadSpec { start: if late { Start::Late } else { Start::Line }, ops });
+    }
+    // 1..=2 crashing calls, each inserted at a random position of a random thread
+    for _ in 0..rng.range(1, 2) {
+        let ti = rng.below(n_threads as u64) as usize;
+        let pos = rng.below(threads[ti].ops.len() as u64 + 1) as usize;
+        let zk = 12 + rng.below(3) as usize;
+        let d = if rng.chance(3, 4) { d0 } else { d1 };
+        let op = gen_op(&mut rng, zk, d, true);
+        threads[ti].ops.insert(pos, op);
+    }
+    let mut faults = Vec::new();
+    if rng.chance(1, 2) {
+        let ti = rng.below(n_threads as u64) as u8;
+        faults.push(Fault::Stall { thread: ti, at_event: rng.range(1, 8) as u32, steps: rng.range(1, 30) as u32 });
+    }
+    Scenario { threads, faults }
+}
+
 pub fn generate(seed: u64, profile: Profile) -> Scenario {
     if profile == Profile::Cover {
         return generate_cover(seed);
+    }
+    if profile == Profile::Crash {
+        return generate_crash(seed);
     }
     let mut rng = Rng::new(seed);
     let (max_threads, max_ops, light) = match profile {
         Profile::Full => (6u64, 4u64, false),
         Profile::Light => (4, 2, true),
         Profile::Tiny => (3, 1, true),
-        Profile::Cover => unreachable!(),
+        Profile::Cover | Profile::Crash => unreachable!(),
     };
     // thread count: biased to small
     let n_threads = match rng.below(10) {
@@ -558,7 +610,7 @@ pub fn generate(seed: u64, profile: Profile) -> Scenario {
             let k = kinds[rng.below(kinds.len() as u64) as usize];
             // crashing caller: replaces an op now and then when enabled
             if fault_mask & FAULT_CRASH != 0 && rng.chance(1, 6) {
-                let zk = if rng.chance(1, 2) { 12 } else { 13 };
+                let zk = 12 + rng.below(3) as usize;
                 ops.push(gen_op(&mut rng, zk, d, light));
             } else {
                 ops.push(gen_op(&mut rng, k, d, light));
@@ -625,7 +677,7 @@ mod tests {
     use super::*;
     #[test]
     fn roundtrip() {
-        for p in [Profile::Full, Profile::Light, Profile::Tiny, Profile::Cover] {
+        for p in [Profile::Full, Profile::Light, Profile::Tiny, Profile::Cover, Profile::Crash] {
             for s in 0..2000u64 {
                 let sc = generate(derive_seed(1, 2, s), p);
                 let txt = encode(&sc);
